@@ -188,10 +188,10 @@ QUOTE_TYPES = ["str", "str", "Optional[str]", "Union[str, int]", "Union[int, str
 
 def quote_shape(s):
     """where the quote characters of a string default sit"""
+    if isinstance(s, str) and "\\" in s:
+        return "escaped"
     if not isinstance(s, str) or not any(c in s for c in "'\""):
         return "none"
-    if "\\" in s:
-        return "escaped"
     if len(s) == 1:
         return "lone"
     a, b = s[0] in "'\"", s[-1] in "'\""
